@@ -282,7 +282,7 @@ def check_inputs(repo: Repo, rep: Report):
 
 def check_cleanup(repo: Repo, rep: Report):
     for qual, acquire_pred, release_pred, what in (
-        (f"{PG}.create_polyglot", lambda c, q: q in COPY_FUNCS and len(c.args) == 2 and (dotted(c.args[1]) or "").startswith("temp_"), lambda c, q, name: q in ("os.remove", "os.unlink") and c.args and dotted(c.args[0]) == name, "temp copy"),
+        (f"{PG}.create_polyglot", lambda c, q: len(c.args) == 2 and (dotted(c.args[1]) or "").startswith("temp_") and isinstance(c.args[0], ast.Name) and not q.startswith("os.path"), lambda c, q, name: q in ("os.remove", "os.unlink") and c.args and dotted(c.args[0]) == name, "temp copy"),
         (f"{PG}.create_standard_torchscript_polyglot", lambda c, q: isinstance(c.func, ast.Attribute) and c.func.attr == "extract" and len(c.args) == 2 and isinstance(c.args[1], ast.Constant), lambda c, q, name: q in ("shutil.rmtree",) and c.args and isinstance(c.args[0], ast.Constant) and c.args[0].value == name, "extraction directory"),
     ):
         f = repo.func(qual)
